@@ -1,6 +1,7 @@
 import AM.Spec.Sshd
 import AM.Model.Syslog
 import AM.Proto
+import AM.ProtoTracker
 /-! `amdriver <mode> [property]`: runs the executable model on cases read from stdin, one per line,
 prints the model's canonical observation, the verdict of the property's executable `Spec` on it
 and — when the case carries the implementation's observation (`obs=`) — the verdict on that. -/
@@ -100,6 +101,39 @@ def c07Line (f : List String) : String :=
     | _, _, _ => s!"{id} !badhex"
   | _ => "!badline"
 
+/-- tracker family: `<id> <failat:-|k> <ops> [obs=…]` -/
+def trackerSpec (prop : String) (h : List Tr.Op) (failAt : Option Nat) (o : Spec.Tracker.Obs) : Option String :=
+  match prop with
+  | "C01" => Spec.Tracker.specC01 h o
+  | "C02" | "C16" => Spec.Tracker.specC02 h failAt o
+  | "C04" => Spec.Tracker.specC04 h o
+  | "C09" => Spec.Tracker.specC09 h o
+  | "C14" => Spec.Tracker.specC14 h o
+  | _ => none
+
+def trackerLine (prop : String) (f : List String) : String :=
+  match f with
+  | id :: fa :: ops :: rest =>
+    match Proto.parseOps ops with
+    | none => s!"{id} !badops"
+    | some h =>
+      let failAt := if fa == "-" then none else fa.toNat?
+      let (o, amb) := Spec.Tracker.modelObs failAt h
+      let sp := trackerSpec prop h failAt o
+      let isp := match kv rest "obs" with
+        | none => "-"
+        | some x => match Proto.parseTrackerObs x with
+          | none => "FAIL:unparsable-observation"
+          | some io => verdict (trackerSpec prop h failAt io)
+      let dom := match prop with
+        | "C01" | "C02" | "C16" => if Spec.Tracker.wfNoReuse h then "1" else "0"
+        | "C09" => if Spec.Tracker.wfReuse h && !Spec.Tracker.wfNoReuse h then "1" else "0"
+        | _ => "1"
+      let sess := (o.acts.map (·.aid)).eraseDups.length
+      let nt := if sess ≥ 1 && o.acts.length ≥ 2 then "1" else "0"
+      s!"{id} {o.render} spec={verdict sp} ispec={isp} dom={dom} nt={nt} amb={if amb then "1" else "0"}"
+  | _ => "!badline"
+
 partial def loop (h : IO.FS.Stream) (out : IO.FS.Stream) (f : List String → String) : IO Unit := do
   let line ← h.getLine
   if line.isEmpty then return ()
@@ -113,4 +147,5 @@ def main (args : List String) : IO UInt32 := do
   match args with
   | ["sshd", prop] => loop stdin stdout (sshdLine prop); return 0
   | ["c07"] => loop stdin stdout c07Line; return 0
+  | ["tracker", prop] => loop stdin stdout (trackerLine prop); return 0
   | _ => IO.eprintln "usage: amdriver <mode> [property]"; return 2
